@@ -1,6 +1,8 @@
 import Genq.Props.C04
 open Genq.Vars
+open Genq
 #print axioms C04_keys_subset
 #print axioms C04_omitted_iff
 #print axioms C04_no_omitempty_all_sent
 #print axioms C04_one_request
+#print axioms C04_marshal_template_tie
